@@ -318,7 +318,9 @@ def run(ctx):
             mir.contains(t2s, lambda x: x[0] == 'call' and x[1] == step.path and strip(x[5]) == strip(step.op_term(t1['args'][3], (b1, None))))
         mid1 = strip(step.op_term(t1['args'][3], (b1, None)))
         mid2 = strip(step.op_term(t2['args'][2], (b2, None)))
-        mid_ok = mid1 == mid2 and 'interpolate' in show(mid1, maxdepth=3)
+        ipr = _interp_role(prog)
+        mid_ok = mid1 == mid2 and len(ipr) == 1 and isinstance(mid1, tuple) and mid1[0] == 'call' and mid1[1] == ipr[0].path and \
+            util.is_param(mid1[2], 3) and util.is_param(mid1[3], 4)
         ends_ok = util.is_param(step.op_term(t1['args'][2], (b1, None)), 3) and util.is_param(step.op_term(t2['args'][3], (b2, None)), 4) \
             and util.is_param(step.op_term(t1['args'][1], (b1, None)), 2)
         ok = depth_ok and inc_ok and chain_ok and mid_ok and ends_ok
@@ -370,6 +372,20 @@ def _is_local_term(b, t, l):
     return t == tl
 
 
+def _interp_role(prog):
+    """the pose interpolation helper: fn(&AnnotatedPose, &AnnotatedPose, f64) -> AnnotatedPose using lerp and slerp"""
+    out = []
+    for p, b in prog.bodies.items():
+        if not p.startswith('cartesian::') or b.kind == 'Closure' or b.arg_count != 3:
+            continue
+        tys = [b.local_ty(i) for i in range(0, 4)]
+        if 'AnnotatedPose' in tys[0] and 'AnnotatedPose' in tys[1] and 'AnnotatedPose' in tys[2] and tys[3] == 'f64':
+            names = {cname(callee_name(t)).split('::')[-1] for _, t in b.calls()}
+            if {'lerp', 'slerp'} <= names:
+                out.append(b)
+    return out
+
+
 def _provenance_params(prog, b, t, depth=0):
     """set of parameter indices of b that occur in term t (through crate-local call arguments)"""
     out = set()
@@ -409,12 +425,22 @@ def _poses(ctx, prog):
                         lambda b, sg: sg[0].replace('std::vec::', '') == 'Vec<cartesian::AnnotatedPose>', module='cartesian::', called_from=[plan])
     ai = util.find_role(ctx, 'interpolating helper of Cartesian: takes &mut Vec<AnnotatedPose>',
                         lambda b, sg: any(x.replace('std::vec::', '') == '&mut Vec<cartesian::AnnotatedPose>' for x in sg[1:]), module='cartesian::', called_from=[plan])
+    # which argument of the public plan(from, land, steps, park) each parameter of the builder receives (by position, not by name)
+    role_of = {}
+    api = {3: 'land', 4: 'steps', 5: 'park', 2: 'from'}
+    for bi, t in plan.calls():
+        if t['callee'].get('resolved') == wp.path:
+            for pos, a in enumerate(t['args']):
+                pi = util.param_index(plan.op_term(a, (bi, None)))
+                if pi in api:
+                    role_of[pos + 1] = api[pi]
+    ctx.require(set(role_of.values()) >= {'land', 'steps', 'park'}, 'plan() hands its land, steps and park arguments to the pose-list builder')
     pushes = [(bi, t) for bi, t in wp.calls() if cname(callee_name(t)) == 'Vec::push']
     items = []
     for bi, t in pushes:
         it = strip(wp.op_term(t['args'][1], (bi, None)))
         if isinstance(it, tuple) and it[0] == 'agg' and len(it) == 4:
-            ps = sorted(wp.name_of(i) for i in _provenance_params(prog, wp, it[2]))
+            ps = sorted(role_of.get(i, '#%d' % i) for i in _provenance_params(prog, wp, it[2]))
             items.append((bi, ' '.join(ps), show(it[3], maxdepth=3)))
     land = [x for x in items if 'LAND' in x[2]]
     park = [x for x in items if 'PARK' in x[2]]
@@ -436,11 +462,13 @@ def _poses(ctx, prog):
         found = show(it, maxdepth=9)
         ok = 'LIN_INTERP' in show(it[3], maxdepth=3)
         pose = show(it[2], maxdepth=12)
-        ok = ok and 'slerp' in pose and ('start' in pose and 'end' in pose)
+        pose_params = [i for i in range(2, ai.arg_count + 1) if 'Isometry' in ai.local_ty(i)]
+        used = _provenance_params(prog, ai, it[2])
+        ok = ok and 'slerp' in pose and len(pose_params) == 2 and set(pose_params) <= used
     ctx.check(ok, 'R12.5', 'interpolated', ai.where(pushes[0][0]) if pushes else ai.where(0), ai.path,
               'intermediate poses must be flagged LIN_INTERP and interpolate between start and end', found=found)
     # interpolate(): flags LIN_INTERP, same p for lerp and slerp
-    ip = [b for p, b in prog.bodies.items() if p.endswith('AnnotatedPose::interpolate')]
+    ip = _interp_role(prog)
     if ip:
         b = ip[0]
         ctx.fn(b)
@@ -589,7 +617,8 @@ def _stop_flag(ctx, prog, plan, probe, plan_cl):
         b, bi, t = stores[0]
         val = util.const_val(b.op_term(t['args'][1], (bi, None)))
         gs = [(strip(g), k) for g, k, sw in b.guard_terms(bi)]
-        after_ok = any(isinstance(g, tuple) and g[0] == 'discr' and 'probe_strategy' in show(g, maxdepth=3) and k == 0 for g, k in gs)
+        pname = probe.path.split('::')[-1]
+        after_ok = any(isinstance(g, tuple) and g[0] == 'discr' and mir.contains(g, lambda x: x[0] == 'call' and x[1] == probe.path) and k == 0 for g, k in gs)
         ok = val in (1, True) and after_ok
         msg = 'store(%s) after successful probe=%s' % (val, after_ok)
     ctx.check(ok, 'R12.6', 'store', stores[0][0].where(stores[0][1]) if stores else plan.where(0), stores[0][0].path if stores else plan.path,
